@@ -103,10 +103,11 @@ class PhaseField(_Simu):
         assert isinstance(model, Models.PhaseField), "model must be a phase field model"
         super().__init__(mesh, model, folder, verbosity)
 
-        # Init internal variable
-        self.__psiP_e_pg: FeArray.FeArrayALike = np.empty(0, dtype=float)
-        # old positive elastic energy density psiPlus(e, pg, 1) to use the miehe history field
-        self.__old_psiP_e_pg: FeArray.FeArrayALike = np.empty(0, dtype=float)
+        # Init internal variable: positive elastic energy density psiPlus(e, pg) of every element group
+        # (a mesh can hold several groups of the main dimension), keyed by element type
+        self.__psiP_e_pg: dict = {}
+        # old positive elastic energy density psiPlus(e, pg) to use the miehe history field
+        self.__old_psiP_e_pg: dict = {}
 
         self.Need_Update()
 
@@ -130,8 +131,8 @@ class PhaseField(_Simu):
         # the history field lives on the Gauss points of the previous mesh: like the solution
         # fields, it starts from scratch on a new one (empty (Ne, nPg) arrays, so that every
         # consumer sees a shape mismatch and rebuilds it)
-        self.__psiP_e_pg = FeArray.zeros(0, 0)
-        self.__old_psiP_e_pg = FeArray.zeros(0, 0)
+        self.__psiP_e_pg = {}
+        self.__old_psiP_e_pg = {}
 
     def Results_nodeFields_elementFields(
         self, details=False
@@ -525,12 +526,17 @@ class PhaseField(_Simu):
         psiP_e_pg, _ = phaseFieldModel.Calc_psi_e_pg(Epsilon_e_pg)
 
         if phaseFieldModel.solver == "History":
-            # Get the old history field
-            old_psiPlus_e_pg = self.__old_psiP_e_pg.copy()  # type: ignore [union-attr]
+            # Get the old history field of this element group
+            history = self.__old_psiP_e_pg
+            old_psiPlus_e_pg = (
+                history.get(groupElem.elemType) if isinstance(history, dict) else None
+            )
 
-            if isinstance(old_psiPlus_e_pg, list) and len(old_psiPlus_e_pg) == 0:
-                # No damage available yet
+            if old_psiPlus_e_pg is None:
+                # No history available yet
                 old_psiPlus_e_pg = np.zeros_like(psiP_e_pg)
+            else:
+                old_psiPlus_e_pg = old_psiPlus_e_pg.copy()
 
             if old_psiPlus_e_pg.shape != psiP_e_pg.shape:
                 # the mesh has been changed, the value must be recalculated
@@ -547,9 +553,11 @@ class PhaseField(_Simu):
             # old = np.linalg.norm(self.__old_psiP_e_pg)
             # assert new >= old, "Error"
 
-        self.__psiP_e_pg = FeArray.asfearray(psiP_e_pg)
+        if not isinstance(self.__psiP_e_pg, dict):
+            self.__psiP_e_pg = {}
+        self.__psiP_e_pg[groupElem.elemType] = FeArray.asfearray(psiP_e_pg)
 
-        return self.__psiP_e_pg
+        return self.__psiP_e_pg[groupElem.elemType]
 
     def __Construct_Damage_Matrix(self):
 
@@ -636,7 +644,9 @@ class PhaseField(_Simu):
 
         if self.phaseFieldModel.solver == self.phaseFieldModel.SolverType.History:
             # update old history field for next resolution
-            self.__old_psiP_e_pg = self.__psiP_e_pg
+            self.__old_psiP_e_pg = (
+                dict(self.__psiP_e_pg) if isinstance(self.__psiP_e_pg, dict) else {}
+            )
 
         iter["displacement"] = self.displacement
         iter["damage"] = self.damage
@@ -664,9 +674,12 @@ class PhaseField(_Simu):
             and self.phaseFieldModel.solver == self.phaseFieldModel.SolverType.History
         ):
             # It's really useful to do this otherwise when we calculate psiP there will be a problem
-            self.__old_psiP_e_pg = FeArray.zeros(*self.__old_psiP_e_pg.shape)
+            self.__old_psiP_e_pg = {}
             # update psi+ with the current state
-            self.__old_psiP_e_pg = self.__Calc_psiPlus_e_pg(self.mesh.groupElem)
+            self.__old_psiP_e_pg = {
+                groupElem.elemType: self.__Calc_psiPlus_e_pg(groupElem)
+                for groupElem in self.mesh.Get_list_groupElem()
+            }
 
         return results
 
